@@ -19,6 +19,7 @@ cache and the caller's label coordinates unchanged; length = number of non-empty
 """
 import copy
 import os
+import random
 import shutil
 import tempfile
 from fractions import Fraction
@@ -43,6 +44,7 @@ THEOREMS = [
     "SleapVerif.C11.getitem_value",
     "SleapVerif.C11.cache_unchanged",
     "SleapVerif.C11.getitem_deterministic",
+    "SleapVerif.C11.getitem_eq_spec",
     "SleapVerif.C11.nocopy_counterexample",
     "SleapVerif.C11.len_eq_nonempty",
     "SleapVerif.C11.len_frames_eq_nonempty",
@@ -674,7 +676,7 @@ def main(chk: Check):
         cen_cases = [{"points": [[[None, None], [4.0, 8.0]], [[1.0, 2.0], [3.0, 4.0]]], "anchor": 0, "rank4": False},
                      {"points": [[[1.5, None], [3.0, 4.0], [5.0, 8.0]]], "anchor": 0, "rank4": True},
                      {"points": [[[None, None], [None, None]]], "anchor": 1, "rank4": False}]
-        for _ in range(chk.n(400, 4000)):
+        for _ in range(chk.n(1200, 12000)):
             nn = rng.choice([1, 2, 3, 4, 5])
             anchor = rng.choice([None] + list(range(nn)) * 2)
             cen_cases.append({"points": gen_points(rng, rng.choice([1, 1, 2, 3, 4]), nn, anchor if anchor is not None else 0),
@@ -689,7 +691,7 @@ def main(chk: Check):
             centroid_case(chk, c, parse_cen(out[2 * k]), parse_cen(out[2 * k + 1]))
 
         # ---- the other helpers: purity
-        helper_purity(chk, rng, chk.n(12, 120))
+        helper_purity(chk, random.Random(f"C11-pure:{chk.seed}"), chk.n(20, 200))
 
         # ---- datasets
         ds_cases = []
@@ -701,7 +703,7 @@ def main(chk: Check):
             cfg = {"kind": kind, "user_only": True, "max_hw": [None, None], "scale": 1.0, "anchor": 1,
                    "crop_hw": [32, 32], "max_stride": 16}
             ds_cases.append({"spec": spec, "cfg": cfg, "seq": [0, 1, 0, 0, 1, 7]})
-        for _ in range(chk.n(260, 3000)):
+        for _ in range(chk.n(900, 8000)):
             spec = gen_labels_spec(rng)
             cfg = gen_cfg(rng, spec)
             n = len(expected_rows(spec, cfg))
@@ -737,7 +739,8 @@ def replay(chk: Check, payload):
                                           ds_line(0, case["spec"], case["cfg"], case["seq"])])
             run_dataset_case(chk, world, case, parse_ds(out[0]), parse_ds(out[1]), tmp)
         else:
-            print("replay: helper-purity cases are regenerated from the seed; re-run the check with the recorded seed")
+            # helper-purity cases come from their own seeded stream: re-run that stream
+            helper_purity(chk, random.Random(f"C11-pure:{payload['seed']}"), 200 if payload.get("tier") == "thorough" else 20)
         print(f"replayed: failing={len(chk.failing)} disagreements={len(chk.disagreements)}")
     finally:
         shutil.rmtree(tmp, ignore_errors=True)
